@@ -17,7 +17,7 @@ CTL_NOTE = NOTE_COMMON + ("The transition table of the line machine is regenerat
             "byte automaton; MAX_LENGTH is not modelled. ")
 
 TS_NOTE = NOTE_COMMON + ("Events enter the model as lines split on blanks (line.split() is trusted); int()/rfind(':') of well-formed fields are modelled, "
-           "maybe_ip_addr and the AddrMap lookup of target hosts are not (addresses are compared as text). Router objects are compared by id_hex. "
+           "maybe_ip_addr is not (addresses are compared as text); the names ADDRMAP lines give to addresses are modelled for lines without an expiry time (NEVER) — timed expiry is C20's model. Router objects are compared by id_hex. "
            "Errors logged or raised are compared by kind. ")
 
 CHECKS = {
@@ -220,8 +220,9 @@ CHECKS = {
               "rearrangement of its entries), C09_priority_first (first non-None answer wins, nobody after it is asked). Correspondence: recording attachers with "
               "immediate and Deferred answers of every kind, real stream_via() connections and Circuit.web_agent() requests over a fake SOCKS endpoint (answered at once, "
               "left unanswered, refused), and the whole product of small PriorityAttacher histories."),
-        note=TS_NOTE + "Coroutine answers share the maybe_coroutine path with Deferred ones and are not generated separately. connect() waiting for a circuit that is not yet "
-             "BUILT is not modelled (the generator registers via-circuit connections on BUILT circuits only).",
+        note=TS_NOTE + "Coroutine answers share the maybe_coroutine path with Deferred ones and are not generated separately. connect() through a circuit that is not yet "
+             "BUILT waits in the model as in the code (C09_via_waits, C09_waiting_registered, C09_built_registers; the waiting connections fail with the circuit, C08_terminal_event); "
+             "a SOCKS connection made at BUILT time that then fails is generated for circuits already BUILT only.",
         technique="Lean 4: decision-table and single-slot theorems on the live-state model, matching theorem for the via-circuit table, sortedness/first-answer theorems for PriorityAttacher; differential correspondence (partly exhaustive)",
         ref='§4.1, §4 C09'),
     'C10': dict(
